@@ -318,8 +318,16 @@ theorem applySpecM_eq (ops : Ops K D T) (ns N : Nat) (child : D → T → Option
   | some d =>
     cases ot with
     | none =>
-      simp only [applySpecM, applySpec, applyAbsent]
-      cases ops.action d <;> rfl
+      simp only [applySpecM, applySpec, applyAbsent, changeName]
+      cases ops.action d with
+      | none => rfl
+      | remove a => rfl
+      | edit a b => rfl
+      | add b =>
+        simp only
+        by_cases h0 : ns = 0
+        · simp [h0]
+        · by_cases h1 : (ops.names (ops.fromKey N k))[ns]? = some none <;> simp [h0, h1]
     | some t =>
       simp only [applySpecM, applySpec, applyPresent, changeName]
       cases ops.action d with
